@@ -22,7 +22,7 @@ def P1 (Lx Ly Lz : Nat) (x y z : Int) : Prop :=
   (InAp 4 (Lx - 3) x ∧ InAp 4 (Ly - 4) y ∧ InAp 2 1 z ∧ (x + y + z) % 4 = 2) ∨
   (InAp 4 (Lx - 3) x ∧ InAp 4 (Ly - 4) y ∧ InAp (2 * Lz - 4) 1 z ∧ (x + y + z) % 4 = 0)
 
-theorem ax1 (hx : 3 ≤ Lx) (hy : 4 ≤ Ly) (hz : 5 ≤ Lz) (x y z : Int) :
+theorem ax1 (hx : 3 ≤ Lx) (hy : 4 ≤ Ly) (hz : 4 ≤ Lz) (x y z : Int) :
     TS Lx Ly Lz 1 x y z ↔ P1 Lx Ly Lz x y z := by
   unfold P1
   constructor
